@@ -81,7 +81,7 @@ prop("C14",
      assumptions=["ACL verdict per packet is an oracle", "the DISCONNECT reason for an invalid alias may be 0x94, 0x81 or 0x82 (the property only requires termination)"],
 )
 
-_WRITER_COQ = ["model/Flow.v", "model/Writer.v", "proofs/FlowProofs.v", "proofs/WriterProofs.v", "chk/C03chk.v"]
+_WRITER_COQ = ["gen/Extracted.v", "model/Flow.v", "model/Writer.v", "model/LFShape.v", "model/AckOrder.v", "proofs/FlowProofs.v", "proofs/WriterProofs.v", "proofs/AckOrderProofs.v", "chk/C03chk.v"]
 _WRITER_RULE = ("histories of 4-25 operations (+12 draining acks) against one durable subscriber S (v5 with Receive Maximum in {1,1,2,3,10}, 15% v3.1.1): "
     "send(qos 0/1/2, expiry none/1 s/100 s) by a publisher, ack(k-th outstanding handshake of the client's own log; 10% PUBREC with error code on v5), abrupt close, "
     "reconnect(rm, possibly changed, never below the client's outstanding count). After every operation: routing barrier (sentinel to a second subscriber) and "
@@ -97,7 +97,9 @@ prop("C03",
                 "expiry / close / reconnect: the writer never gets stuck in the identifier search (the candidates cover the whole cycle 1..65535: wrap-around), and in every reachable state "
                 "quota + |in use| = RM, identifiers in use are pairwise distinct and non-zero, everything put on the wire at QoS>0 is registered in use, a fresh identifier is never one in use, "
                 "and at quiescence the full RM is available again. Guard: the client acknowledges only what it was sent and reconnects with RM >= its unacknowledged count; outside the guard "
-                "refute/C03.v gives the witness (open known finding C03-reconnect-lower-rm, replayed on every run). Partial: reader/writer goroutine interleavings finer than one Flow operation.",
+                "refute/C03.v gives the witness (open known finding C03-reconnect-lower-rm, replayed on every run). Finer than one Flow operation (model/AckOrder.v: an acknowledgement as its two accesses, the writer's pop between them; "
+                "the order of the accesses is re-read from connection/ack.go and writer.go on every run, C03_ack_shape): C03_ack_order_accounting - for EVERY interleaving identifiers in use stay distinct, quota + in use = RM, and between acknowledgements "
+                "the identifiers in use are exactly those of the registered unacknowledged messages; the order the code had is refuted (C03_ack_order_as_it_was_refuted). Partial: other reader/writer interleavings (expiry sweep against acknowledgement).",
      level_note="Trusted: Coq kernel + vm_compute; hand translation of flowControl.go/writer.go/onAck incl. the abstraction of the uint32 counter to the id cycle 1..65535 (checked by the differential run); persistence backend semantics (append, remove-on-load).",
      trusted_base=["vlplugin persistence/mem (append on store, remove on load)", "vlapi codec"],
      assumptions=["generic packets (SUBACK, PINGRESP ...) are not modelled", "one popPackets round is atomic w.r.t. acknowledgement processing"],
